@@ -266,4 +266,7 @@ func checkC04(c *h.Check) {
 	stdCoverage(c, cases, results, "the C03 DAG family on the success path plus chains/diamonds/fan-ins/ladders with 4-5 cleanup providers, every subset of cleanup-returning nodes, and each node re-kinded as struct/field/pointer-field/binding/value/parameter step. Distinct = distinct rendered source.")
 	sampleCase(c, cases, results)
 	c.Assumptions = append(c.Assumptions, "data independence: identities stand for all argument values")
+	if acc := c.Coverage["programs_accepted"].(int); acc < 500 && c.Only == "" && c.NotRun == 0 {
+		c.Internalf("vacuous: only %d programs accepted and executed", acc)
+	}
 }
